@@ -1,6 +1,7 @@
 package drivers
 
 import (
+	"strings"
 	"crypto/x509"
 	"fmt"
 	"math/big"
@@ -74,6 +75,9 @@ type c05Cast struct {
 	// client certificates without authority key identifier whose own subject looks like the issuer's name (other letter
 	// case, doubled blank, other attribute order): they answer about themselves, certificate not embedded
 	leafLike map[string]*world.Ident
+	// foreignResponder: a responder certificate (OCSPSigning) of an unrelated CA, configured as trusted responder
+	// certificate: it may answer for that CA's certificates, not for this issuer's
+	foreignResponder *world.Ident
 }
 
 func newC05Cast() *c05Cast {
@@ -90,6 +94,7 @@ func newC05Cast() *c05Cast {
 	c.delegClient = world.Issue(c.issuer, world.CertOpt{CN: "delegated clientauth eku", Serial: big.NewInt(58), KeyKind: "rsa", KeyIdx: 3, ExtKeyUsage: []x509.ExtKeyUsage{x509.ExtKeyUsageClientAuth}})
 	c.leafAny = world.Issue(c.issuer, world.CertOpt{CN: "c05 client any eku", Serial: big.NewInt(4243), KeyKind: "rsa", KeyIdx: 7, OCSP: []string{ocspURL}, ExtKeyUsage: []x509.ExtKeyUsage{x509.ExtKeyUsageClientAuth, x509.ExtKeyUsageAny}})
 	c.chain = world.Chain(c.leaf, c.issuer, p.Root)
+	c.foreignResponder = world.Issue(p.OtherCA, world.CertOpt{CN: "responder of the other CA", Serial: big.NewInt(59), KeyKind: "rsa", KeyIdx: 6, ExtKeyUsage: []x509.ExtKeyUsage{x509.ExtKeyUsageOCSPSigning}})
 	c.leafLike = map[string]*world.Ident{}
 	for i, v := range []struct {
 		name string
@@ -135,7 +140,8 @@ func (c c05Case) String() string {
 
 var c05Signers = []string{"issuer", "delegated-eku", "delegated-no-eku", "client-own", "stranger-embedded", "stranger-bare", "sibling-ca", "delegated-eku-bare",
 	"delegated-eku-any", "delegated-eku-clientauth", "client-own-eku-any", "stranger-embedded-ocspsigning", "sibling-delegated-eku",
-	"client-own-named-like-issuer-case", "client-own-named-like-issuer-blank", "client-own-named-like-issuer-order"}
+	"client-own-named-like-issuer-case", "client-own-named-like-issuer-blank", "client-own-named-like-issuer-order",
+	"configured-trusted-responder-of-another-CA-bare", "configured-trusted-responder-of-another-CA-embedded"}
 
 // leafFor: the certificate whose status is asked (a special leaf for the case where the client answers about itself)
 func (k *c05Cast) leafFor(c c05Case) *world.Ident {
@@ -185,6 +191,10 @@ func (k *c05Cast) build(c c05Case) (body []byte, authentic bool) {
 		a.Signer, a.EmbedCert = k.leafAny, true
 	case "stranger-embedded-ocspsigning":
 		a.Signer, a.EmbedCert = k.strangerEKU, true
+	case "configured-trusted-responder-of-another-CA-bare":
+		a.Signer = k.foreignResponder
+	case "configured-trusted-responder-of-another-CA-embedded":
+		a.Signer, a.EmbedCert = k.foreignResponder, true
 	case "sibling-delegated-eku":
 		a.Signer, a.EmbedCert = k.siblingDeleg, true
 	case "client-own-named-like-issuer-case", "client-own-named-like-issuer-blank", "client-own-named-like-issuer-order":
@@ -218,7 +228,11 @@ func (k *c05Cast) build(c c05Case) (body []byte, authentic bool) {
 func (k *c05Cast) run(c c05Case) (used, cached bool, v1, v2 Verdict, authentic bool) {
 	body, authentic := k.build(c)
 	res := seqWorld(func() {
-		w := NewOW(true, 10*time.Minute, nil, nil)
+		var trusted []*x509.Certificate
+		if strings.HasPrefix(c.Signer, "configured-trusted-responder") {
+			trusted = []*x509.Certificate{k.foreignResponder.Cert}
+		}
+		w := NewOW(true, 10*time.Minute, trusted, nil)
 		if c.AfterSibling {
 			const sibURL = "http://ocsp.test/sibling"
 			sl := world.Issue(k.sibling, world.CertOpt{CN: "c05 client of the sibling CA", Serial: big.NewInt(4300), KeyKind: "rsa", KeyIdx: 1, OCSP: []string{sibURL}})
@@ -300,6 +314,29 @@ func RunC05(tier string, args []string) int {
 	}
 	for _, rs := range []int{1, 2, 3, 5, 6} {
 		judge(c05Case{Signer: "issuer", Status: xocsp.Good, RespStatus: rs, FlipBit: -1})
+	}
+	// replay: an authentic answer about this certificate is looked up first; then a second certificate of the same issuer
+	// is presented and the responder sends the very same bytes again - they say nothing about the second one
+	for _, st := range []int{xocsp.Good, xocsp.Revoked} {
+		evals++
+		body, _ := k.build(c05Case{Signer: "issuer", Status: st, FlipBit: -1})
+		second := world.Issue(k.issuer, world.CertOpt{CN: "c05 second client", Serial: big.NewInt(4245), KeyKind: "rsa", KeyIdx: 1, OCSP: []string{ocspURL}})
+		var v1, v2, v3 Verdict
+		seqWorld(func() {
+			w := NewOW(true, 10*time.Minute, nil, nil)
+			w.Net.Serve(ocspURL, "scripted", body)
+			v1 = w.Lookup(k.leaf, k.chain)
+			v2 = w.Lookup(second, world.Chain(second, k.issuer, k.p.Root))
+			w.Net.Down(ocspURL)
+			v3 = w.Lookup(second, world.Chain(second, k.issuer, k.p.Root))
+			w.Chk.Cleanup()
+		})
+		outcomes.Add(fmt.Sprintf("replay %s/%s/%s", v1, v2, v3))
+		if v1.Err != "" || v1.Panic != "" {
+			chk.Violation("C05|harness|replay-setup", "the authentic answer about the first certificate was not used: "+v1.Err+v1.Panic, nil)
+		} else if v2.Err == "" || v3.Err == "" {
+			chk.Violation("C05|unauthentic-used|replayed-bytes-of-an-answer-about-another-certificate", fmt.Sprintf("after a lookup of certificate X, the same response bytes (about X) %s for certificate Y of the same issuer (second lookup %s, with the responder down %s)", map[bool]string{true: "decided the verdict", false: "were cached"}[v2.Err == ""], v2, v3), nil)
+		}
 	}
 	// two-step histories on one checker: first a client of the sibling CA, then this certificate
 	for _, s := range c05Signers {
